@@ -180,11 +180,12 @@ def _roundtrip_objects(ctx, per, label, prefix):
                 tries += 1
                 try:
                     s, v = S.gen_valid(gname, rng)
-                    if rng.random() < 0.2:
+                    if rng.random() < 0.3:
                         # a character of a wide alphabet inserted (what a loosened validity pattern may newly admit);
                         # used only when the constructor accepts the text
                         j = rng.randint(0, len(s))
-                        ins = rng.choice(list(":_~+-.^") + ["0:", "1:", "0:", "00:"] + ["%2B", "%7E", "%41", "%", "v", "vv", "Vv", "V"])
+                        ins = rng.choice(list(":_~+-.^") + ["0:", "1:", "0:", "00:"]) if rng.random() < 0.65 else \
+                            rng.choice(["%2B", "%7E", "%41", "%", "v", "vv", "Vv", "V"])
                         if ins.endswith(":") and len(ins) > 1 and rng.random() < 0.7:
                             j = 0           # an epoch in front (of a text that may already have one)
                         if ins.lower().startswith("v"):
